@@ -273,6 +273,59 @@ def run_cli_subprocess(args, cwd, env=None, timeout=120, extra_py_args=()):
     return p.returncode, p.stdout.decode("utf-8", "replace"), p.stderr.decode("utf-8", "replace")
 
 
+def run_cli_watch_for_deadlock(args, cwd, env=None, budget=25.0):
+    """Run the CLI in a child process. Returns ("exit", rc, out, err) or ("deadlock", detail) or ("slow", detail).
+
+    A run that does not finish is examined through /proc instead of being judged by the clock: if bumpver sleeps in a
+    pipe READ while a child of it sleeps in a pipe WRITE, unchanged over two samples, that wait-for cycle will never
+    resolve ("deadlock"). Anything else that is merely slow is "slow" (inconclusive)."""
+    import time
+    e = dict(os.environ)
+    e["PYTHONPATH"] = core.src_dir()
+    e.pop("BUMPVER_SRC", None)
+    e.update(env or {})
+    p = subprocess.Popen([core.PY, "-m", "bumpver", *args], cwd=cwd, env=e, stdout=subprocess.PIPE, stderr=subprocess.PIPE)
+
+    def wchan(pid):
+        try:
+            return open(f"/proc/{pid}/wchan").read().strip(), open(f"/proc/{pid}/stat").read().split(") ")[1].split()[0]
+        except OSError:
+            return None, None
+
+    def children(pid):
+        try:
+            return [int(x) for x in open(f"/proc/{pid}/task/{pid}/children").read().split()]
+        except OSError:
+            return []
+
+    t0 = time.monotonic()
+    samples = []
+    try:
+        while time.monotonic() - t0 < budget:
+            try:
+                out, err = p.communicate(timeout=1.0)
+                return ("exit", p.returncode, out.decode("utf-8", "replace"), err.decode("utf-8", "replace"))
+            except subprocess.TimeoutExpired:
+                pass
+            if time.monotonic() - t0 > 4.0:
+                kids = children(p.pid)
+                samples.append((wchan(p.pid), tuple(wchan(k) for k in kids)))
+                if len(samples) >= 3 and samples[-1] == samples[-2] == samples[-3] and samples[-1][1]:
+                    (pw, ps), kid = samples[-1][0], samples[-1][1][0]
+                    if pw and "read" in pw and kid[0] and "write" in kid[0] and ps == "S" and kid[1] == "S":
+                        return ("deadlock", f"bumpver sleeps in {pw}, its child in {kid[0]} (3 identical samples)")
+        return ("slow", f"not finished after {budget}s: {samples[-1:]}")
+    finally:
+        if p.poll() is None:
+            for k in children(p.pid):
+                try:
+                    os.kill(k, 9)
+                except OSError:
+                    pass
+            p.kill()
+            p.communicate()
+
+
 # ---------------------------------------------------------------------------------------
 # sandbox projects and snapshots
 
@@ -386,12 +439,16 @@ class FakeVCS:
         with open(os.path.join(self.ctl, "fail_match"), "w") as f:
             f.write("\n".join(lines) + "\n")
 
+    def hook_noise(self, nbytes):
+        with open(os.path.join(self.ctl, "hook_noise"), "w") as f:
+            f.write(str(nbytes))
+
     def fail_nth(self, k):
         with open(os.path.join(self.ctl, "fail_nth"), "w") as f:
             f.write(str(k))
 
     def reset(self):
-        for n in ("fail_match", "fail_nth", "fetched"):
+        for n in ("fail_match", "fail_nth", "fetched", "hook_noise"):
             try:
                 os.unlink(os.path.join(self.ctl, n))
             except FileNotFoundError:
